@@ -39,6 +39,7 @@ import (
 	"math/rand"
 	"net/http"
 	"net/url"
+	"os"
 	"path/filepath"
 	"sort"
 	"strings"
@@ -49,13 +50,16 @@ import (
 	"github.com/uber-go/tally"
 	"github.com/uber/kraken/build-index/tagclient"
 	"github.com/uber/kraken/core"
+	"github.com/uber/kraken/lib/hashring"
 	"github.com/uber/kraken/lib/hostlist"
 	"github.com/uber/kraken/lib/persistedretry"
 	"github.com/uber/kraken/lib/persistedretry/tagreplication"
+	"github.com/uber/kraken/lib/store"
 	"github.com/uber/kraken/origin/blobclient"
 	"github.com/uber/kraken/utils/httputil"
 
 	"kverif/kit"
+	oc "kverif/props/origincluster"
 	ssync "kverif/shim/sync"
 	simrt "kverif/sim"
 	"kverif/simhttp"
@@ -66,9 +70,11 @@ const ms = time.Millisecond
 
 type zone struct {
 	bi, originDNS string
-	blobs         map[string]bool        // hex -> present in the remote origin cluster
-	tags          map[string]core.Digest // held by the remote build-index
-	putsAcked     map[string]int
+	// real-origins runs: addresses and directories of the zone's real origins
+	realAddrs, realDirs []string
+	blobs               map[string]bool        // hex -> present in the remote origin cluster (scripted origins)
+	tags                map[string]core.Digest // held by the remote build-index
+	putsAcked           map[string]int
 }
 
 type tagRec struct {
@@ -81,16 +87,46 @@ type tagRec struct {
 }
 
 type world struct {
-	s        *simrt.Sim
-	hn       *simhttp.Net
-	faultsOn bool
-	srvPm    int // scripted server-side failure rate while faults are on
-	origins  []string
-	zones    []*zone
-	tags     []*tagRec
-	fetch    map[string]int // origin|hex -> 202 answers left (blob still being fetched)
-	unrouted []string
-	checked  int // log prefix already checked
+	s         *simrt.Sim
+	hn        *simhttp.Net
+	faultsOn  bool
+	srvPm     int // scripted server-side failure rate while faults are on
+	origins   []string
+	zones     []*zone
+	tags      []*tagRec
+	fetch     map[string]int    // origin|hex -> 202 answers left (blob still being fetched)
+	layerName map[string]string // hex -> content of a layer blob (real-origins runs)
+	unrouted  []string
+	checked   int // log prefix already checked
+}
+
+// present reports whether the remote origin cluster of z holds the blob: the
+// scripted cluster's own record, or — with real origins — the cache directories
+// of the zone's origins, read straight from disk (ground truth, whether or not
+// the origin processes are alive).
+func (w *world) present(z *zone, hex string) bool {
+	if len(z.realDirs) == 0 {
+		return z.blobs[hex]
+	}
+	for _, dir := range z.realDirs {
+		if _, ok := oc.LocalCopy(dir, hex); ok {
+			return true
+		}
+	}
+	return false
+}
+
+// zoneClusters resolves a remote cluster name to the real cluster client over
+// that zone's real origins (the production provider resolves the name by DNS).
+type zoneClusters struct{ w *world }
+
+func (p zoneClusters) Provide(dns string) (blobclient.ClusterClient, error) {
+	for _, z := range p.w.zones {
+		if z.originDNS == dns {
+			return oc.ClusterClient(0, z.realAddrs...), nil
+		}
+	}
+	return nil, fmt.Errorf("unknown remote cluster %q", dns)
 }
 
 func digest(s string) core.Digest {
@@ -245,6 +281,16 @@ func (w *world) buildIndexHandler(z *zone) http.Handler {
 			return
 		}
 		w.checkOrder() // early detection; the same check runs at the end
+		if len(z.realDirs) > 0 {
+			// real origins: the build-index is being ASKED to store the tag now,
+			// so every dependency must be in the remote origin cluster already
+			for _, dep := range tr.deps {
+				if !w.present(z, dep.Hex()) {
+					s.Fail("tag_put_before_blob_present", "the remote build-index %s was asked to store tag %s at %v while dependency %s is in no origin of the remote cluster %v", z.bi, tag, s.Now(), dep.Hex()[:12], z.realAddrs)
+				}
+			}
+			s.Probe("real_origins_tag_put_judged")
+		}
 		stored := false
 		if w.faultsOn && w.srvPm > 0 && s.Tape.Chance(w.srvPm) {
 			s.Fault("scripted_tag_put_error")
@@ -261,7 +307,7 @@ func (w *world) buildIndexHandler(z *zone) http.Handler {
 		}
 		// the real tagserver stats every dependency in its origin cluster
 		for _, dep := range tr.deps {
-			if !z.blobs[dep.Hex()] {
+			if !w.present(z, dep.Hex()) {
 				s.Probe("remote_refused_missing_dependency")
 				rw.WriteHeader(500)
 				io.WriteString(rw, "cannot upload tag, missing dependency "+dep.String())
@@ -326,7 +372,7 @@ func (w *world) checkOrder() {
 
 func body(s *simrt.Sim, tier string) {
 	tp := s.Tape
-	w := &world{s: s, fetch: map[string]int{}}
+	w := &world{s: s, fetch: map[string]int{}, layerName: map[string]string{}}
 	w.hn = simhttp.Install(s)
 	hn := w.hn
 	mode := tp.Draw(2) // 0 direct Exec loops, 1 under the real manager and store
@@ -350,14 +396,55 @@ func body(s *simrt.Sim, tier string) {
 		a := fmt.Sprintf("origin%d:80", i+1)
 		w.origins = append(w.origins, a)
 	}
-	for _, a := range w.origins {
-		hn.Register(a, srvNode, w.originHandler(a))
+	// Workload variant (out of band, one run in five): the local origin cluster
+	// and the remote origin clusters are REAL origins (blobserver incl. its
+	// replicate-to-remote handler and the cluster client's UploadBlob, CAStore,
+	// refresher, testfs backends); only the remote build-index stays scripted,
+	// and it judges "asked to store the tag" against what the remote origins
+	// really hold on disk.
+	realOrigins := s.Tape.Variant%5 == 4 || os.Getenv("KSIM_C33_REAL") != ""
+	if !realOrigins {
+		for _, a := range w.origins {
+			hn.Register(a, srvNode, w.originHandler(a))
+		}
 	}
 	for i := 0; i < nZones; i++ {
 		z := &zone{bi: fmt.Sprintf("bi-remote-%c:80", 'a'+i), originDNS: fmt.Sprintf("origin-remote-%c:80", 'a'+i),
 			blobs: map[string]bool{}, tags: map[string]core.Digest{}, putsAcked: map[string]int{}}
 		w.zones = append(w.zones, z)
 		hn.Register(z.bi, srvNode, w.buildIndexHandler(z))
+	}
+	var localBackend *oc.Backend
+	if realOrigins {
+		s.Probe("real_origins_run")
+		root := kit.TempDir(s)
+		wb := persistedretry.Config{IncomingBuffer: 8, RetryBuffer: 8, NumIncomingWorkers: 1, NumRetryWorkers: 1, MaxTaskThroughput: ms,
+			RetryInterval: 5 * time.Second, PollRetriesInterval: 3 * time.Second, WorkqueueMetricsEmitInterval: time.Minute}
+		off := store.CleanupConfig{Disabled: true}
+		mk := func(name, addr string, cluster []string, backend string) string {
+			dir := filepath.Join(root, name)
+			_, o, err := oc.Start(s, hn, name, oc.Config{Addr: addr, Cluster: cluster, Dir: dir, Namespace: ".*", BackendAddr: backend,
+				Store: store.CAStoreConfig{UploadCleanup: off, CacheCleanup: off}, WriteBack: wb,
+				Ring: hashring.Config{MaxReplica: 2}, ClusterProvider: zoneClusters{w}}, 0)
+			if err != nil || o == nil {
+				s.InfraError("real origin %s: %v", name, err)
+			}
+			return dir
+		}
+		localBackend = oc.StartBackend(s, hn, "backend-local:80")
+		for zi, z := range w.zones {
+			rb := oc.StartBackend(s, hn, fmt.Sprintf("backend-remote-%c:80", 'a'+zi))
+			n := 1 + tp.Draw(2)
+			for k := 0; k < n; k++ {
+				z.realAddrs = append(z.realAddrs, fmt.Sprintf("origin-remote-%c%d:80", 'a'+zi, k+1))
+			}
+			for k, a := range z.realAddrs {
+				z.realDirs = append(z.realDirs, mk(fmt.Sprintf("rorigin-%c%d", 'a'+zi, k+1), a, z.realAddrs, rb.Addr))
+			}
+		}
+		for i, a := range w.origins {
+			mk(fmt.Sprintf("lorigin%d", i+1), a, w.origins, localBackend.Addr)
+		}
 	}
 	// workload
 	maxFetch := 0
@@ -372,6 +459,7 @@ func body(s *simrt.Sim, tier string) {
 				name = "layer-shared"
 			}
 			deps = append(deps, digest(name))
+			w.layerName[digest(name).Hex()] = name
 		}
 		tr := &tagRec{tag: tag, digest: d, deps: deps, z: z}
 		tr.task = func() *tagreplication.Task { return tagreplication.NewTask(tag, d, deps, z.bi, 0) }
@@ -382,6 +470,39 @@ func body(s *simrt.Sim, tier string) {
 				w.fetch[o+"|"+dep.Hex()] = n
 				if n > maxFetch {
 					maxFetch = n
+				}
+			}
+		}
+	}
+	if realOrigins {
+		// every dependency is in the local backend; most are also in the local
+		// origins' caches already (the others make replicate-to-remote answer 202
+		// while the origin fetches them)
+		seeder := blobclient.NewProvider()
+		seen := map[string]bool{}
+		for _, tr := range w.tags {
+			names := []string{"manifest-" + tr.tag}
+			for _, dep := range tr.deps[1:] {
+				names = append(names, w.layerName[dep.Hex()])
+			}
+			for _, name := range names {
+				d := digest(name)
+				if seen[d.Hex()] {
+					continue
+				}
+				seen[d.Hex()] = true
+				if err := localBackend.Put(oc.BlobRoot+"/"+d.Hex(), []byte(name)); err != nil {
+					s.InfraError("seed backend: %v", err)
+				}
+				if tp.Chance(700) {
+					up := s.GoNode(srvNode, "seed", func() {
+						for _, a := range w.origins {
+							if err := seeder.Provide(a).TransferBlob(d, strings.NewReader(name), uint64(len(name))); err != nil {
+								s.InfraError("seed %s: %v", a, err)
+							}
+						}
+					})
+					s.Wait(up)
 				}
 			}
 		}
@@ -618,7 +739,7 @@ func (w *world) state() {
 				mix("T" + tr.tag)
 			}
 			for _, d := range tr.deps {
-				if z.blobs[d.Hex()] {
+				if w.present(z, d.Hex()) {
 					mix("B" + d.Hex()[:8])
 				}
 			}
